@@ -291,6 +291,28 @@ func TestWorker(t *testing.T) {
 			}
 		}
 
+		if len(vs) > 0 && !(prop == "C08" && len(vs) == 1 && vs[0].Code == "race") {
+			// a violation is a property of (scenario, schedule): it must show again when the very same run is
+			// repeated; what does not is counted and not reported (the race detector reports once per process)
+			sc2 := gen.Generate(prop, seed)
+			res2 := engine.Run(t, sc2)
+			vs2 := oracle.Check(prop, sc2, res2)
+			var keep []oracle.Violation
+			for _, v := range vs {
+				again := v.Code == "race"
+				for _, w := range vs2 {
+					if w.Sig == v.Sig {
+						again = true
+					}
+				}
+				if again {
+					keep = append(keep, v)
+				} else {
+					sum.Counters["unconfirmed:"+v.Sig]++
+				}
+			}
+			vs = keep
+		}
 		if len(vs) > 0 {
 			sum.Failing++
 			v := vs[0]
